@@ -7,6 +7,7 @@ usage: tools/selftest.py [PID ...] [--keep] [--list]
 import glob
 import json
 import os
+import re
 import shutil
 import subprocess
 import sys
@@ -46,6 +47,25 @@ def make_copy():
 def apply(dst, m):
     """Returns list of (path, original_text) to restore, or raises."""
     saved = []
+    if m.get("patch"):
+        # a stored unified diff against /repo (paths a/src/...): the seeded changes written by sub-agents
+        pf = os.path.join(HERE, m["patch"])
+        files = re.findall(r"^\+\+\+ b/src/(\S+)", open(pf).read(), re.M)
+        for f in files:
+            p = os.path.join(dst, f)
+            saved.append((p, open(p, encoding="latin-1").read()))
+        r = subprocess.run(["patch", "-p2", "-s", "-d", dst, "-i", pf], capture_output=True, text=True)
+        if r.returncode != 0:
+            for p, s0 in saved:
+                open(p, "w", encoding="latin-1").write(s0)
+            for junk in ("orig", "rej"):
+                for f in files:
+                    try:
+                        os.unlink(os.path.join(dst, f + "." + junk))
+                    except OSError:
+                        pass
+            raise KeyError("patch %s does not apply: %s" % (m["patch"], (r.stdout + r.stderr)[-300:]))
+        return saved
     for e in m["edits"]:
         p = os.path.join(dst, e["file"])
         s = open(p, encoding="latin-1").read()
@@ -76,7 +96,7 @@ def syntax_ok(dst, files):
 def run_mutant(dst, m):
     saved = apply(dst, m)
     try:
-        files = {e["file"] for e in m["edits"]}
+        files = {e["file"] for e in m.get("edits", [])} | {os.path.basename(p) if os.path.dirname(p) == dst else os.path.relpath(p, dst) for p, _ in saved}
         if any(f.endswith(".h") for f in files):
             files = set(build.units_and_flags(srcdir=dst)[0])
         ok, err = syntax_ok(dst, files)
